@@ -326,3 +326,51 @@ Print Assumptions C06_rollback_wf_preserved.
 Print Assumptions C06_rollback_wf_preserved_by_rollback.
 Print Assumptions C06_rollback_restores_values_candidate.
 Print Assumptions C06_rollback_restores_values_candidate_any_view.
+
+(** Step and run level: the executable instance Model/P2Inst.v (Proofs/P2PureRollbackRun.v) *)
+From OC Require Import Proofs.P2_ConvergeEx Proofs.P2PureReachRun Proofs.P2PureReachLabels Proofs.P2PureRollbackRun.
+
+(* two commit steps: in an invariant world w0 the complete commit step of the Change proposal (t, i) writes the entry C1;
+   in an invariant world w1 whose entry of t holds the same stored map, the complete commit step of a Rollback proposal
+   (t, j) that carries the rollback values recorded on the view the change was committed on restores exactly what Get
+   showed before the change - for every pair of Go map orders *)
+Theorem C06_rollback_restores_steps_partial :
+  forall (Lf : N -> str -> Prop) (w0 w1 : Wd) (t i j : N) (n n' : nat) (o o' : oracle) (P R : Prop2)
+         (C C1 C1' C2 : Cfg) (c : cmap) (ri : N),
+  Inv Lf w0 -> props w0 !! (t, i) = Some P -> p_details P = PChange c -> cfgs w0 !! t = Some C ->
+  p_commit P = Some Doing -> p_apply P = None -> p_abort P = None -> c_committed C = p_prev P -> (2 <= n)%nat ->
+  cfgs (p2_step w0 (LRec (CtlProp (t, i)) n o)) !! t = Some C1 ->
+  Inv Lf w1 -> cfgs w1 !! t = Some C1' -> c_values C1' = c_values C1 ->
+  props w1 !! (t, j) = Some R -> p_details R = PRollback ri ->
+  p_rbvalues R = Some (rollback_of (view overlay C) c) ->
+  p_commit R = Some Doing -> p_apply R = None -> p_abort R = None -> c_committed C1' = p_prev R -> (2 <= n')%nat ->
+  cfgs (p2_step w1 (LRec (CtlProp (t, j)) n' o')) !! t = Some C2 ->
+  rollback_wf i j (c_values C) (view overlay C) c = true ->
+  live (view overlay C2) = live (view overlay C).
+Proof. exact rollback_two_commits. Qed.
+
+(* runs of complete invocations from the initial world: lc the commit step of the Change proposal (t, i), lr the commit
+   step of the Rollback proposal (t, j) of (t, i), no commit step of a proposal of t in between ([quiet]).  Hypotheses
+   that are NOT derived from the run (statements about the worlds x_run ls1 and x_run (ls1 ++ [lc] ++ ls2), checkable
+   on a dumped run): the rollback proposal carries rollback_of (view C) c (the validation history that records it is
+   not lifted to runs), rollback_wf on the values the change is committed on, and [quiet] itself *)
+Theorem C06_rollback_restores_run_partial :
+  forall (ls1 ls2 : list Label) (t i j : N) (n n' : nat) (o o' : oracle) (P R : Prop2) (C C1' C2 : Cfg) (c : cmap),
+  let lc := LRec (CtlProp (t, i)) n o in
+  let lr := LRec (CtlProp (t, j)) n' o' in
+  let ls := ls1 ++ [lc] ++ ls2 ++ [lr] in
+  labels_wfb ls = true -> completes p2_init ls ->
+  props (x_run ls1) !! (t, i) = Some P -> p_details P = PChange c -> cfgs (x_run ls1) !! t = Some C ->
+  p_commit P = Some Doing -> p_apply P = None -> p_abort P = None -> c_committed C = p_prev P ->
+  quiet t (x_run (ls1 ++ [lc])) ls2 ->
+  props (x_run (ls1 ++ [lc] ++ ls2)) !! (t, j) = Some R -> p_details R = PRollback i ->
+  cfgs (x_run (ls1 ++ [lc] ++ ls2)) !! t = Some C1' ->
+  p_commit R = Some Doing -> p_apply R = None -> p_abort R = None -> c_committed C1' = p_prev R ->
+  p_rbvalues R = Some (rollback_of (view overlay C) c) ->
+  rollback_wf i j (c_values C) (view overlay C) c = true ->
+  cfgs (x_run ls) !! t = Some C2 ->
+  live (view overlay C2) = live (view overlay C).
+Proof. exact rollback_restores_run. Qed.
+
+Print Assumptions C06_rollback_restores_steps_partial.
+Print Assumptions C06_rollback_restores_run_partial.
